@@ -105,6 +105,7 @@ func tunnelCert() tls.Certificate {
 type tunnel struct {
 	kind        string // tcp, sni, dynamic, ws
 	pxyproto    bool
+	recMinor    byte // minor version in the record header of the hello (0 = as crypto/tls writes it: 3.1)
 	byOption    bool // the route is marked TCP by its option proto=tcp (destination written with another scheme), not by a tcp:// destination
 	mode        string // both-finish-upstream-closes, both-finish-client-closes, client-only, upstream-only, half-close
 	client      []byte // application bytes the client sends (after the hello on sni)
@@ -188,6 +189,10 @@ func genTunnel(t *rapid.T, kinds []string) tunnel {
 	tn.pxyproto = (tn.kind == "tcp" || tn.kind == "sni" || tn.kind == "tcp+tls") && rapid.Bool().Draw(t, "pxyproto")
 	tn.v6 = tn.kind != "ws" && haveV6 && rapid.IntRange(0, 3).Draw(t, "ipv6-client") == 0
 	tn.byOption = tn.kind != "ws" && rapid.IntRange(0, 2).Draw(t, "route-marked-tcp-by-option") == 0
+	if tn.kind == "sni" {
+		// some stacks write 3.3 (or 3.2) into the record header of their hello
+		tn.recMinor = rapid.SampledFrom([]byte{0, 0, 3, 2, 3}).Draw(t, "hello-record-version-minor")
+	}
 	switch tn.mode {
 	case "client-only":
 		tn.client = genStream(t, "c", false)
@@ -284,6 +289,9 @@ func runTunnel(tn tunnel) (res result) {
 	hello := []byte(nil)
 	if tn.kind == "sni" {
 		hello = clientHelloN(tn.sniName, tn.smallHello, tn.alpn)
+		if tn.recMinor != 0 {
+			hello[2] = tn.recMinor
+		}
 	}
 	wantUp := len(hello) + len(tn.client) // application bytes the upstream should read (after the PROXY line)
 
@@ -595,6 +603,9 @@ func checkTunnel(fatalf func(string, ...any), tn tunnel) {
 	wantUp := tn.client
 	if tn.kind == "sni" {
 		h := clientHelloN(tn.sniName, tn.smallHello, tn.alpn)
+		if tn.recMinor != 0 {
+			h[2] = tn.recMinor
+		}
 		hello = len(h)
 		// the random differs between two hellos: compare lengths and the bytes after it
 		if len(res.upstreamGot) >= hello {
